@@ -294,6 +294,41 @@ def initBig5 (fs : FS) (pb pu : String) (st : Loader) : M (Loader × Bool) := do
   let (st1, e1) ← initB2U fs pb st
   if e1 then pure (st1, true) else initU2B fs pu st1
 
+/-- every row of a table file, the first line included (what an independent reader of the data sees). -/
+def parseAllRows (content : Bytes) : M (List Row) := do
+  let rs ← (split 10 content).mapM parseLine
+  pure (rs.filterMap id)
+
+/-- the first line of a file (`strings.Split` always yields a first piece). -/
+def firstLine (content : Bytes) : Bytes := (split 10 content).headD []
+
+/-! ### the start-up sequence initgin.InitAllConfig
+
+The packages' `InitConfig()` calls in the order of the source (`Gen.Big5.initOrder`).  `types` loads the tables
+(`initBig5`); `ptttype` (postInitConfig → setBBSName) converts the configured site name with `Utf8ToBig5` against
+whatever the maps hold AT THAT MOMENT and keeps the result (`BBSNAME_BIG5`) for the lifetime of the process. -/
+
+structure Boot where
+  loader : Loader
+  bbsnameBig5 : Option Bytes := none       -- `none`: ptttype.InitConfig has not run (the compiled-in default stays)
+
+/-- one `X.InitConfig()`; the flag is `err != nil`. -/
+def bootStep (fs : FS) (pb pu : String) (name : Bytes) (b : Boot) (pkg : String) : M (Boot × Bool) :=
+  if pkg = "types" then do
+    let (l, e) ← initBig5 fs pb pu b.loader
+    pure ({ b with loader := l }, e)
+  else if pkg = "ptttype" then do
+    let r ← utf8ToBig5 (tableOf b.loader.u2b) name
+    pure ({ b with bbsnameBig5 := some r }, false)
+  else pure (b, false)
+
+/-- the calls in order; the first error is returned at once. -/
+def boot (fs : FS) (pb pu : String) (name : Bytes) : List String → Boot → M (Boot × Bool)
+  | [], b => pure (b, false)
+  | p :: ps, b => do
+    let (b', e) ← bootStep fs pb pu name b p
+    if e then pure (b', true) else boot fs pb pu name ps b'
+
 /-! ### types.config(): which ini key feeds which table path
 
 `config()` is a sequence of `X = setTConfig("KEY", DEFAULT)`; the list of these reads is regenerated from the
